@@ -278,5 +278,18 @@ Section Detect.
       - intros H. destruct (Hsnd f H) as (g & [Hh|Hh]); exists g; auto. apply hits_sym; auto.
       - apply Hc; auto.
     Qed.
+
+    (** detect and detect_any agree: some frame is marked iff detect_any answers True *)
+    Corollary detect_any_consistent :
+      narrow_implies_aabb_overlap ->
+      exists contacts b, detect st = XOk contacts /\ detect_any st = XOk b /\
+        ((exists f, dict_get feqb contacts f = Some true) <-> b = true).
+    Proof.
+      intros Hna. destruct detect_spec_st as (contacts & Hd & _ & _ & Hc & Hs).
+      destruct detect_any_spec_st as (b & Hb & H1 & H2).
+      exists contacts, b. split; auto. split; auto. split.
+      - intros (f & Hf). apply H2; auto. destruct (Hs f Hf) as (g & [H|H]); eauto.
+      - intros Hbt. destruct (H1 Hbt) as (f & g & Hh). exists f. apply Hc; eauto.
+    Qed.
   End WithState.
 End Detect.
